@@ -24,7 +24,7 @@ RESPONSES = ["y", "y", "y", "f", "h", "g['g1']", "np.abs(y)", "u[p]", "prop(s, n
 
 @st.composite
 def case_strategy(draw):
-    spec = draw(rich.frame_strategy(with_index=False, extra_unused=False, num_styles=("general", "general", "offset", "intdtype", "symmetric", "ties", "smallint")))
+    spec = draw(rich.frame_strategy(with_index=False, extra_unused=False, num_styles=("general", "general", "offset", "intdtype", "symmetric", "ties", "smallint", "uint")))
     n0 = frames.nrows(spec)
     trials = [5 + (i * 7) % 9 for i in range(n0)]
     spec["cols"].append({"name": "s", "kind": "int", "values": [(i * 5) % (t_ + 1) for i, t_ in enumerate(trials)]})
@@ -50,10 +50,12 @@ def case_strategy(draw):
     if draw(st.integers(0, 2)) == 0:
         used = sorted(rich.used_columns(d) & {"x", "z", "p", "y", "f", "g", "h", "u"})
         for name in draw(st.lists(st.sampled_from(used), min_size=1, max_size=2, unique=True)) if used else []:
-            if frames.column(spec, name)["kind"] == "int":
+            if frames.column(spec, name)["kind"] in ("int", "uint16"):
                 continue
             holes[name] = sorted(draw(st.sets(st.integers(0, n - 1), min_size=1, max_size=max(1, n // 5))))
-    return {"design": d, "frame": spec, "transform": t, "holes": holes}
+    # the strict policy for missing values: columns the formula does not mention do not matter under it either
+    strict = (not holes) and draw(st.integers(0, 3)) == 0
+    return {"design": d, "frame": spec, "transform": t, "holes": holes, "na_action": "error" if strict else None}
 
 
 def transformed(spec, t, used):
@@ -118,6 +120,7 @@ def judge(ctx, case):
 
         spec = with_holes(spec, holes)  # missing values in used columns: the default policy drops those rows
     formula = d["formula"]
+    nakw = {"na_action": case["na_action"]} if case.get("na_action") else {}
     used = rich.used_columns(d) if not case.get("big") else rich.bases(d["formula"])
     frame = frames.build(spec)
     ns = rich.namespace_for(frame)
@@ -129,19 +132,19 @@ def judge(ctx, case):
               "response:" + d["response"].split("[")[0].split("(")[0]] + (["missing_values"] if holes else []), sample={"formula": formula, "transform": t, "frame": spec}, stratum="transform:" + t["kind"])
     try:
         with core.Guard():
-            a = design_summary(design_matrices(formula, frame, extra_namespace=ns))
+            a = design_summary(design_matrices(formula, frame, extra_namespace=ns, **nakw))
     except Exception as e:  # pylint: disable=broad-except
         ctx.reject(e)  # whether this formula is accepted at all is not C08's business ...
         try:
             with core.Guard():
-                design_matrices(formula, frame2, extra_namespace=ns)
+                design_matrices(formula, frame2, extra_namespace=ns, **nakw)
         except Exception:  # pylint: disable=broad-except
             return
         ctx.fail("status", case, f"{formula!r} raises {type(e).__name__} on the frame but is accepted on the transformed frame ({t['kind']})", t["kind"])
         return
     try:
         with core.Guard():
-            b = design_summary(design_matrices(formula, frame2, extra_namespace=ns))
+            b = design_summary(design_matrices(formula, frame2, extra_namespace=ns, **nakw))
     except Exception as e:  # pylint: disable=broad-except
         ctx.fail("status", case, f"{formula!r} is accepted on the frame but raises {type(e).__name__}: {e} after {t['kind']}", t["kind"] + ":" + core.exc_key(e))
         return
